@@ -195,6 +195,36 @@ where
 	}
 }
 
+/// Decodes the arcs of a parsed object identifier
+///
+/// `Oid::iter()` takes the first two arcs from the first octet alone, but they are encoded
+/// together as `40 * first + second` in a sub-identifier that spans several octets once the
+/// first arc is 2 and the second one is 48 or more (X.690 8.19.4). Returns `None` if the
+/// encoding is malformed or an arc does not fit into a `u64`.
+#[cfg(feature = "x509-parser")]
+pub(crate) fn oid_arcs(oid: &x509_parser::der_parser::asn1_rs::Oid<'_>) -> Option<Vec<u64>> {
+	let mut arcs = Vec::new();
+	let mut value = 0u64;
+	let mut pending = false;
+	for byte in oid.as_bytes() {
+		if value > u64::MAX >> 7 {
+			return None;
+		}
+		value = value << 7 | u64::from(byte & 0x7f);
+		pending = byte & 0x80 != 0;
+		if !pending {
+			if arcs.is_empty() {
+				let first = (value / 40).min(2);
+				arcs.extend([first, value - 40 * first]);
+			} else {
+				arcs.push(value);
+			}
+			value = 0;
+		}
+	}
+	(!pending).then_some(arcs)
+}
+
 #[cfg(feature = "x509-parser")]
 fn ip_addr_from_octets(octets: &[u8]) -> Result<IpAddr, Error> {
 	if let Ok(ipv6_octets) = <&[u8; 16]>::try_from(octets) {
@@ -222,7 +252,7 @@ impl SanType {
 				SanType::IpAddress(ip_addr_from_octets(octets)?)
 			},
 			x509_parser::extensions::GeneralName::OtherName(oid, value) => {
-				let oid = oid.iter().ok_or(Error::CouldNotParseCertificate)?;
+				let oid = oid_arcs(oid).ok_or(Error::CouldNotParseCertificate)?;
 				// We first remove the explicit tag ([0] EXPLICIT)
 				let (_, other_name) = TaggedExplicit::<asn1_rs::Any, _, 0>::from_der(value)
 					.map_err(|_| Error::CouldNotParseCertificate)?;
@@ -236,7 +266,7 @@ impl SanType {
 					),
 					_ => return Err(Error::CouldNotParseCertificate),
 				};
-				SanType::OtherName((oid.collect(), other_name_value))
+				SanType::OtherName((oid, other_name_value))
 			},
 			_ => return Err(Error::InvalidNameType),
 		})
@@ -368,11 +398,9 @@ impl DistinguishedName {
 				panic!("x509-parser distinguished name set is empty");
 			};
 
-			let attr_type_oid = attr
-				.attr_type()
-				.iter()
-				.ok_or(Error::CouldNotParseCertificate)?;
-			let dn_type = DnType::from_oid(&attr_type_oid.collect::<Vec<_>>());
+			let attr_type_oid =
+				oid_arcs(attr.attr_type()).ok_or(Error::CouldNotParseCertificate)?;
+			let dn_type = DnType::from_oid(&attr_type_oid);
 			let data = attr.attr_value().data;
 			let try_str =
 				|data| std::str::from_utf8(data).map_err(|_| Error::CouldNotParseCertificate);
